@@ -130,9 +130,10 @@ def gen_case(r, kind, bits, rng_v, dense=False, frame=None):
     # sorted ascending; keep -0.0/0.0 both (stable order)
     pts = sorted(set(struct.pack(">d", p) for p in pts), key=lambda b: (struct.unpack(">d", b)[0], b[0] & 0x80 == 0))
     xs = [struct.unpack(">d", b)[0] for b in pts]
-    if kind != "simple" and len(xs) > 16 and not dense:
+    cap = 48 if dense else 16
+    if kind != "simple" and len(xs) > cap:
         # the SAR loop costs `bits` float steps per voltage inside Coq: thin the frame, keep the ends
-        keep = sorted(set([0, 1, len(xs) - 2, len(xs) - 1] + r.sample(range(len(xs)), 16)))
+        keep = sorted(set([0, 1, len(xs) - 2, len(xs) - 1] + r.sample(range(len(xs)), cap)))
         xs = [xs[i] for i in keep]
     frame = r.choices(["float64", "float32", "float16"], [14, 5, 1])[0] if frame is None else frame
     # narrow frames (Signal.TYPE_LIST allows float32/float16): the converters work on a binary64 copy, so any
